@@ -98,6 +98,7 @@ def c19_table(info):
     rows = _c19_rows(info)
     out = ["def initTable : List (Nat × Pyg.Init.Row) := ["]
     items = []
+    cwd_items = []
     b = lambda x: "true" if x else "false"  # noqa
     for r in rows:
         root = None
@@ -107,9 +108,16 @@ def c19_table(info):
         # the configured root is the one the trace script wrote: <tmp>/root
         calls = ", ".join(_c19_call(t, root if (root or "").endswith("/root") else None) for t in r["trace"])
         fault = "none" if r["fault"] is None else f"some {r['fault']}"
-        items.append(f"  ({r.get('fclass', 0)}, {{ cfg := {{ tls := {b(r['tls'])}, chroot := {b(r['chroot'])}, setuid := {b(r['setuid'])}, setgid := {b(r['setgid'])} }}, "
-                     f"fault := {fault}, trace := [{calls}], raised := {b(r['raised'] is not None)}, rootSlash := {b(r['root_after'] == '/')} }})")
+        row = (f"{{ cfg := {{ tls := {b(r['tls'])}, chroot := {b(r['chroot'])}, setuid := {b(r['setuid'])}, setgid := {b(r['setgid'])} }}, "
+               f"fault := {fault}, trace := [{calls}], raised := {b(r['raised'] is not None)}, rootSlash := {b(r['root_after'] == '/')} }}")
+        if r.get("start_cwd"):
+            cwd_items.append("  " + row)      # the same start-up from another working directory (the root, below it, siblings of it)
+        else:
+            items.append(f"  ({r.get('fclass', 0)}, {row})")
     out.append(",\n".join(items))
+    out.append("]")
+    out.append("def initTableCwd : List Pyg.Init.Row := [")
+    out.append(",\n".join(cwd_items))
     out.append("]")
     return out
 
